@@ -154,6 +154,14 @@ func randString(r *RNG, n int, canon bool) string {
 		b = append(b, "tail"...)
 		return string(b)
 	}
+	if !canon && r.Chance(1, 14) {
+		// a very long string (an application handing over a whole log line): the wire keeps its first n bytes
+		b := make([]byte, 256*(1+r.Intn(2))+r.Intn(n+4))
+		for i := range b {
+			b[i] = byte('A' + r.Intn(26))
+		}
+		return string(b)
+	}
 	var ln int
 	switch r.Intn(6) {
 	case 0:
